@@ -74,6 +74,10 @@ def apply_cipher(alg, direction, block_bv):
     return out
 
 
+class AlreadyFinalized(Exception):
+    """cryptography.exceptions.AlreadyFinalized (not a ValueError)"""
+
+
 class _Op:
     def __init__(self, alg, direction):
         self.alg = alg
@@ -84,7 +88,7 @@ class _Op:
 
     def update(self, data):
         if self.done:
-            raise ValueError('Context was already finalized.')
+            raise AlreadyFinalized('Context was already finalized.')
         data = SymBytes.of(data)
         if self.buf is not None and len(self.buf):
             data = self.buf + data
@@ -102,7 +106,7 @@ class _Op:
 
     def finalize(self):
         if self.done:
-            raise ValueError('Context was already finalized.')
+            raise AlreadyFinalized('Context was already finalized.')
         self.done = True
         if self.left:
             raise ValueError('The length of the provided data is not a multiple of the block length.')
